@@ -89,8 +89,20 @@ EXHAUSTIVE_SLICES = ("all automata with states {0,1} and <=2 rules over {a/0,b/0
 def targeted(rng, n):
     out = []
     for _ in range(n):
-        fam = rng.randrange(6)
-        if fam == 0:
+        fam = rng.randrange(7)
+        if fam == 6:
+            # one symbol used with several arities under the SAME parent (a leaf rule and rules with children), then a state renaming
+            a = gen.rand_ta_sized(rng, 4, 6)
+            st = sorted(a.states()) or [0]
+            for _ in range(rng.randint(1, 2)):
+                f = rng.choice([0, 2, 3, 9]); p = rng.choice(st)
+                a.rules.append((f, p, ()))
+                for ar in rng.sample([1, 2, 3], rng.randint(1, 2)):
+                    a.rules.append((f, p, tuple(rng.choice(st) for _ in range(ar))))
+            rng.shuffle(a.rules)
+            m = rand_map(rng, a.states(), rng.choice(["identity", "injective", "shift", "merging", "sparse"]))
+            out.append(any_variant(rng, a, m))
+        elif fam == 0:
             # many parents owning rules under few symbols, all parents collapse into 1-2 targets (one destination cluster hit repeatedly)
             k = rng.randint(3, 7); st = list(range(k)); syms = [(2, 1), (3, 2), (0, 0)]
             rules = []
